@@ -150,8 +150,9 @@ def finding_classes(r):
         return cl
     refpart = r.split(':')[0]
     seg = refpart.split('/', 1)[0]
-    # F9a: absolute path whose directory part is only slashes ("/file")
-    if re.match(r'^/+[^/]*$', refpart):
+    # F9a: absolute paths go through os.path.split / os.path.join: a path whose directory part is only slashes
+    # ("/file") or that holds a doubled separator ("/a//", "/a//b") is not printed back as written
+    if re.match(r'^/+[^/]*$', refpart) or (refpart.startswith('/') and '//' in refpart):
         cl.append('absolute_path_directly_under_root')
     if not refpart.startswith('/') and '.' in refpart:
         before_dot = refpart.split('.', 1)[0]
